@@ -222,6 +222,20 @@ pub fn c02(tier: &str, seed: u64) -> Vec<Case> {
         }
         v.push(c);
     }
+    // a third excluded point: a question for a type the library has no layout for, built through the public constructors
+    // (`QTYPE::TYPE(TYPE::from(c))`: a client asking for TLSA, SSHFP, a private-use type): the writer emits the code, the
+    // parser refuses an unsupported question type (C18 demands that it be an error, not an alias) - so the library cannot
+    // read the query it wrote, nor a response that echoes the question (C02 and C18 cannot both be met here)
+    for code in [52u16, 44, 99, 300, 65280, 0] {
+        let mut p = Packet::new_query(code);
+        p.questions.push(Question::new(crate::gen::mk_name(&[b"host".to_vec(), b"example".to_vec()]), QTYPE::TYPE(TYPE::from(code)), CLASS::IN.into(), false));
+        let mut c = Case::oracle_only().tag("unknown-qtype-question");
+        match p.build_bytes_vec() {
+            Ok(b) => { if parse_out(&b) != format!("ok {}", text::packet(&p)) { c = c.fail("unknown-qtype-question", format!("a question for type {} is written and does not parse back", code)); } }
+            Err(_) => { c = c.tag("refused-at-build"); }
+        }
+        v.push(c);
+    }
     // a second excluded point: opaque data of length zero (RFC 1035 3.3.10 allows it, `NULL::new(&[])` accepts it):
     // RDLENGTH 0 is read back as `RData::Empty(type)`, another variant - `NULL(t, [])` and `Empty(t)` share one wire form
     for code in [10u16, 300] {
